@@ -19,7 +19,7 @@ LC_CFGS_G = {
     "C": dict(system="rev", dt=0.25, ts=[0.01], tmax=0.03, policy="on_iteration", seed=13),
 }
 
-ALPHABET1 = [("setup", "A"), ("setup", "B"), ("setup", "C"), ("iterate",), ("iterate_n", 2), ("run", 0),
+ALPHABET1 = [("setup", "A"), ("setup", "B"), ("setup", "C"), ("iterate",), ("iterate_n", 2), ("iterate_n", 0), ("run", 0),
              ("sample",), ("get_progress",), ("is_complete",), ("get_output",), ("finalize",)]
 
 
@@ -106,7 +106,7 @@ def random_history(rng, n_calls, two=False, cfg_ids=("A", "B", "C"), run_ms=(0, 
             sym = rng.choice([("setup", rng.choice(cfg_ids))] * 4 + [("finalize",)])
         else:
             sym = rng.choice([("setup", rng.choice(cfg_ids)), ("iterate",), ("iterate",), ("iterate",),
-                              ("iterate_n", rng.choice([1, 2, 3, 5, 50])), ("run", rng.choice(run_ms)),
+                              ("iterate_n", rng.choice([0, 1, 2, 3, 5, 50])), ("run", rng.choice(run_ms)),
                               ("sample",), ("sample",), ("get_progress",), ("is_complete",), ("get_output",),
                               ("finalize",)])
         calls.append(_call(sym, obj))
